@@ -42,6 +42,10 @@ type Case struct {
 	Events []Event `json:"events"`
 	Term   string  `json:"term"` // eof | read-error | garbage-small | garbage-large | local-close | last-with-eof | last-with-error | handler-panic | tls-handshake-failure
 	Late   int     `json:"late"` // CloseNotify requests made after termination
+	// StuckWrite: when the terminating event happens, a Write of the application (another
+	// goroutine: an asynchronous answer, a server-initiated request) is stuck in the transport
+	// because the peer does not read. Termination must not wait for it.
+	StuckWrite bool `json:"stuck_write,omitempty"`
 }
 
 const (
@@ -306,6 +310,31 @@ func runCase(c Case) *ev.Failure {
 			return ev.Failf("closed-early", "CloseNotify channel %d is closed although the connection has not terminated", i)
 		}
 	}
+	unstick := make(chan struct{})
+	var unstickOnce sync.Once
+	releaseWrite := func() { unstickOnce.Do(func() { close(unstick) }) }
+	defer releaseWrite()
+	if c.StuckWrite && c.Term != "tls-handshake-failure" {
+		inWrite := make(chan struct{}, 1)
+		mc.WriteHook = func(b []byte, accept func([]byte)) (int, error) {
+			select {
+			case inWrite <- struct{}{}:
+			default:
+			}
+			<-unstick
+			accept(b)
+			return len(b), nil
+		}
+		go conn.Write(appMessage(9999, false))
+		select {
+		case <-inWrite:
+		case <-time.After(promptly):
+			cleanup()
+			return ev.Failf("harness-write", "the application's Write did not reach the transport within %v", promptly)
+		}
+		oldCleanup := cleanup
+		cleanup = func() { releaseWrite(); oldCleanup() }
+	}
 	waits := strings.HasSuffix(c.Term, "-handler-waits")
 	if waits {
 		// A channel exists, the reader has gone back to the transport since it was requested (one
@@ -352,7 +381,14 @@ func runCase(c Case) *ev.Failure {
 		junk := append(refcodec.EncodeHeader(refcodec.Header{Version: 1, Flags: 0x80, Code: 0xABCDEF, App: 77, Length: 60}), make([]byte, n)...)
 		mc.Feed(junk)
 	case "local-close":
-		conn.Close()
+		closed := make(chan struct{})
+		go func() { conn.Close(); close(closed) }()
+		select {
+		case <-closed:
+		case <-time.After(promptly):
+			cleanup()
+			return ev.Failf("local-close-blocked", "Close() did not return within %v (a Write of another goroutine is stuck in the transport: %v)", promptly, c.StuckWrite)
+		}
 	case "last-with-eof", "last-with-error":
 		// one more valid message whose last bytes arrive together with the end of the stream
 		mc.ErrWithData = true
@@ -448,6 +484,9 @@ func classify(c Case) (bool, []string) {
 	if c.Late > 0 {
 		cl = append(cl, "request-after-termination")
 	}
+	if c.StuckWrite {
+		cl = append(cl, "write-stuck-in-transport-at-termination")
+	}
 	seen := map[string]bool{}
 	var out []string
 	for _, x := range cl {
@@ -479,7 +518,7 @@ func genEvent(t *rapid.T) Event {
 }
 
 func genCase(t *rapid.T) Case {
-	c := Case{Mode: "conn", Term: rapid.SampledFrom(terms).Draw(t, "term"), Late: rapid.IntRange(0, 2).Draw(t, "late")}
+	c := Case{Mode: "conn", Term: rapid.SampledFrom(terms).Draw(t, "term"), Late: rapid.IntRange(0, 2).Draw(t, "late"), StuckWrite: rapid.IntRange(0, 3).Draw(t, "stuck-write") == 0}
 	if rapid.IntRange(0, 4).Draw(t, "client-mode") == 0 {
 		c.Mode = "client"
 	}
@@ -492,7 +531,7 @@ func genCase(t *rapid.T) Case {
 
 var prop = ev.Register(&ev.Prop[Case]{
 	ID: "C14", Name: "closenotify",
-	Rule: "orders of events {deliver 1..4 valid messages in arbitrary fragments (optionally one handler requests CloseNotify), request CloseNotify from another goroutine while the reader is parked, request it at an arbitrary moment} followed by exactly one terminating event {peer EOF, transport read error, undecodable message with 200 B / 9 KB of trailing data, local Close, the last message together with EOF / error, handler panic; EOF / read error / local Close while a handler waits for a channel requested earlier} and 0..2 requests after termination; on a plain connection and through sm.Client with the watchdog enabled; every channel must be open before and closed within 3 s after termination, messages dispatched once each in order, and no goroutine with diam.(*conn).serve / closeNotify.func / sm.(*Client).watchdog on its stack may remain; non-trivial = at least one CloseNotify request and one delivered message; distinct by event order",
+	Rule: "orders of events {deliver 1..4 valid messages in arbitrary fragments (optionally one handler requests CloseNotify), request CloseNotify from another goroutine while the reader is parked, request it at an arbitrary moment} followed by exactly one terminating event {peer EOF, transport read error, undecodable message with 200 B / 9 KB of trailing data, local Close, the last message together with EOF / error, handler panic; EOF / read error / local Close while a handler waits for a channel requested earlier} and 0..2 requests after termination; 1 in 4 with a Write of another goroutine stuck in the transport when the connection terminates; on a plain connection and through sm.Client with the watchdog enabled; every channel must be open before and closed within 3 s after termination, messages dispatched once each in order, and no goroutine with diam.(*conn).serve / closeNotify.func / sm.(*Client).watchdog on its stack may remain; non-trivial = at least one CloseNotify request and one delivered message; distinct by event order",
 	Gen:  genCase, Run: runCase, Classify: classify, Attempts: 5,
 })
 
@@ -554,6 +593,23 @@ func TestC14TLSHandshakeFailure(t *testing.T) {
 			for late := 0; late <= 2; late++ {
 				if !yield(Case{Mode: "conn", Events: evs, Term: "tls-handshake-failure", Late: late}) {
 					return
+				}
+			}
+		}
+	})
+}
+
+// Every terminating event with a Write of another goroutine stuck in the transport.
+func TestC14StuckWrite(t *testing.T) {
+	prop.Enumerate(t, false, func(yield func(Case) bool) {
+		for _, term := range terms {
+			for _, evs := range [][]Event{nil, {{Kind: "deliver", N: 1, Wait: true}}, {{Kind: "req-now"}}, {{Kind: "deliver", N: 2, Mark: 1, Wait: true}}, {{Kind: "req-parked"}, {Kind: "deliver", N: 1, Wait: true}}} {
+				for late := 0; late <= 1; late++ {
+					for _, mode := range []string{"conn", "client"} {
+						if !yield(Case{Mode: mode, Events: evs, Term: term, Late: late, StuckWrite: true}) {
+							return
+						}
+					}
 				}
 			}
 		}
